@@ -30,6 +30,10 @@ type itemErr struct{ tag string }
 
 func (e *itemErr) Error() string { return e.tag }
 
+// Unwrap: every error item WRAPS io.EOF (like the "read chunk 2: unexpected EOF" errors of real sources). An
+// error item is an item, whatever it wraps; only the bare io.EOF is the end of a stream.
+func (e *itemErr) Unwrap() error { return io.EOF }
+
 // Expr describes how a reader is derived.
 type Expr struct {
 	Kind  string // pipe | array | copy | merge | conv
